@@ -266,3 +266,23 @@ func (v *VerifFw) AddFromConfig(inbound bool, rules any) (ok bool, panicked bool
 	err := AddFirewallRulesFromConfig(verifFwLogger, inbound, verifFwConfig(inbound, rules), v.fw)
 	return err == nil, false
 }
+
+// VerifNewFirewallFromConfig builds the firewall the way the node does: the real NewFirewallFromConfig (NewFirewall,
+// firewall.default_local_cidr_any, then the outbound and inbound tables) with a CertState holding the given certificate.
+func VerifNewFirewallFromConfig(my VerifFwCert, c *config.C) (v *VerifFw, ok bool, panicked bool) {
+	defer func() {
+		if p := recover(); p != nil {
+			v, ok, panicked = nil, false, true
+		}
+	}()
+	cs := &CertState{v2Cert: &verifFwCert{c: my}}
+	fw, err := NewFirewallFromConfig(verifFwLogger, cs, c)
+	if err != nil || fw == nil {
+		return nil, false, false
+	}
+	t := new(bart.Lite)
+	for _, n := range my.Networks {
+		t.Insert(n)
+	}
+	return &VerifFw{fw: fw, myNets: t, pool: cert.NewCAPool()}, true, false
+}
